@@ -4,6 +4,7 @@ From Coq.Strings Require Import Byte.
 From Gopki.Model Require Import Bytes Base64 Pem Der Asn1 Text Algs Glue Pkcs8 Ext Rdn Time X509 Generate HashView Dir Plan Run Ops Cli Merge Validate Current.
 From Gopki.Spec Require Import RegenSpec DirInv MergeSpec ValidateSpec X509Spec ExtSpec AdmissionSpec PolicySpec.
 From Gopki.Proofs Require Import RunProofs ExtProofs PlanProofs WfProofs X509Proofs DerProofs Asn1Proofs TimeRangeProofs RdnProofs GenerateProofs ValidateProofs TimeProofs AlgsProofs Base64Proofs PolicyProofs MergeProofs CliProofs OpsProofs FaultProofs HistoryProofs HashViewProofs Pkcs8Proofs RecoverProofs PemTornProofs AdmissionProofs PemProofs GlueProofs.
+From Gopki.Proofs Require Import ShapeProofs.
 Import ListNotations.
 
 (* every generated certificate is accepted by the strict parser, which reads back exactly the typed certificate *)
@@ -53,3 +54,15 @@ Theorem C02_serial_at_most_20_octets :
   forall z : Z, (0 <= z < 2 ^ 159)%Z -> Datatypes.length (int_content z) <= 20.
 Proof. exact serial_octets. Qed.
 Print Assumptions C02_serial_at_most_20_octets.
+
+(* the shape rules for a configuration without manipulations: v3, inner = outer, NULL parameters exactly for the RSA schemes,
+   serial non-negative and at most 20 content octets *)
+Theorem C02_shape :
+  forall (fx : fixes) (sha1 : bytes -> bytes) (c : cert_cfg) (o : observed) (iss : option (list rdn * bytes)) (t : tcert),
+    gen_tcert fx cur_mfx sha1 c o iss = Some t -> cc_manip c = no_manip ->
+    t_version t = 2%Z /\ t_inner t = t_outer t /\
+    (exists so rsa, sig_oid (effective_sigalg c) = Some (so, rsa) /\ t_outer t = mkAlg so (if rsa then Some der_null else None)) /\
+    ((0 <= ob_serial o)%Z -> (0 <= t_serial t)%Z) /\
+    ((0 <= ob_serial o < 2 ^ 159)%Z -> (cc_serial c < 2 ^ 63)%Z -> (Datatypes.length (int_content (t_serial t)) <= 20)%nat).
+Proof. exact generated_shape. Qed.
+Print Assumptions C02_shape.
